@@ -102,7 +102,7 @@ class MinuitFitter(Fitter):
 
     def free_parameters(self) -> List[str]:
         """Return list of names of free fitting parameters."""
-        self.theory.free_parameters()
+        return self.theory.free_parameters()
 
     def print_parameters(self):
         """Values and errors for free parameters."""
